@@ -2,6 +2,7 @@
 from checks.common import Ctx
 from sa.report import Check
 from sa.rules import serial_rules as R
+from sa.rules import schematype as ST
 
 
 def main(tier):
@@ -19,6 +20,7 @@ def main(tier):
             "from_json(ir_data.EmbossIr, ...) (R-DRIVERS). Not decided: equality of arbitrary IRs after a round trip."))
     r, s = cx.repo, cx.schema
     chk.run("R-SERIALTYPES", R.serialtypes, r, s, floor=40, control=lambda: R.control(r))
+    chk.run("R-COPYTYPE", ST.copytype, r, s, floor=8)
     chk.run("R-SRCLOC", R.srcloc, r, floor=4)
     chk.run("R-LOCENCODE", R.locencode, r, floor=1)
     chk.run("R-DRIVERS", R.drivers, r, floor=6)
